@@ -6,7 +6,13 @@ from __future__ import annotations
 
 def classify(pid, name, case, msg):
     f = globals().get(f"_classify_{pid.lower()}")
-    return f(name, case, msg) if f else None
+    if f is None:
+        import importlib
+        try:
+            f = importlib.import_module(f"findings_{pid.lower()}").classify
+        except ModuleNotFoundError:
+            return None
+    return f(name, case, msg)
 
 
 def _classify_c08(name, case, msg):
